@@ -500,10 +500,7 @@ def detector_tsan(run, progs, info, built):
 # of native execution, hence the small size.
 MIRI_QUICK = ('(.[0] |= "x"), {a: .[1:], (.[0] | tojson): 1}, [limit(2; foreach ($x[], .[]) as $y (0; . + 1; [$y, .]))], '
               '($x | .[1].a += 1), (.[0] | ltrimstr("a") + "bc" | ., (. / "b")), (tojson | fromjson | sort)')
-MIRI_THOROUGH = ('[.[] | tojson], (.[0] |= "x"), {a: .[1:], (.[0] | tojson): 1}, [limit(3; foreach ($x[], .[]) as $y (0; . + 1; [$y, .]))], '
-                 '($x | .[1].a += 1), (.[0] | ltrimstr("a") + "bc" | ., explode, (. / "b"), (tojson | fromjson)), '
-                 '[paths], (map(tojson) | sort), [.[0] | matches("a+b"; "g")], (reduce range(1; 25) as $i (1; . * $i) | tostring), '
-                 '(to_entries | from_entries | keys_unsorted), ([., $x] | group_by(length) | map(length)), (try error({a: $x}) catch .a[0])')
+MIRI_THOROUGH = MIRI_QUICK + ', [.[0] | matches("a+b"; "g")], (try error({a: $x}) catch .a[0]), (map(tojson) | sort)'
 
 
 def miri_workload(run):
@@ -571,9 +568,9 @@ def detector_miri(run, info, built):
         return time.time() - t0
     progs = miri_workload(run)
     # quick: 4 scheduler seeds, small program, 2 inputs, one isolated run per input, no compile-while-running
-    # (one compilation under Miri costs ~20 s of CPU); thorough: 24 seeds, the larger program, 3 inputs, isolated
+    # (one compilation under Miri costs ~20 s of CPU); thorough: 16 seeds, a somewhat larger program (+ regex, try/catch, sort), 3 inputs, isolated
     # runs twice before and twice after, and a thread that compiles (and runs) the program meanwhile
-    nseeds = run.size(4, 24)
+    nseeds = run.size(4, 16)
     first = (run.seed * 64) % 4096
     cfg = {"threads": 3, "reps": 1, "seed": run.seed + 1, "jitter": 1, "take": 40, "lockstep": True,
            "compile_during": run.tier == "thorough", "light": run.tier != "thorough", "compile_limit": 1, "share_values": True, "defs": "core", "build": "miri",
